@@ -610,7 +610,14 @@ impl Model {
                     self.owner.remove(id);
                     self.out.remove(id);
                 } else if !events.is_empty() {
+                    // an id whose exchange is still in flight (PUBREL stage) must not be given back
+                    if matches!(self.owner.get(id), Some(Owner::PubComp) | Some(Owner::RelPending)) && events.iter().any(|e| matches!(e, Ev::Released(i) if i == id)) {
+                        s.hit("P10-release-only-when-the-exchange-ends");
+                        s.fail("C08", "P10-release-only-when-the-exchange-ends", format!("call=erase;owner={:?}", self.owner.get(id)), format!("erase_stored_publish({}) released the packet id although its QoS 2 exchange is past PUBREC and still awaits PUBCOMP: {}", id, evs_short(events)));
+                    }
                     s.fail("C06", "S7-erase-stored-publish", "why=events-for-nothing".into(), format!("erase_stored_publish({}) with no stored PUBLISH of that id returned {}", id, evs_short(events)));
+                } else if matches!(self.owner.get(id), Some(Owner::PubComp) | Some(Owner::RelPending)) {
+                    s.hit("P10-release-only-when-the-exchange-ends");
                 }
                 self.apply_released(&cx, s);
                 self.scan_events(&cx, s);
